@@ -222,7 +222,7 @@ package server
 //@   locks-internally
 //@   frame-by-effects
 //@   requires scriptMsgOK(s, msg) && lock == 2 && !pending
-//@   modifies pending, ndispatched, lastDispatched, steps
+//@   modifies pending, ndispatched, lastDispatched, steps, perCall
 //@   ensures [lock-balance] lock == 2
 //@   ensures [logged] !pending
 //@ func Server.luaTile38AtomicRO
@@ -230,7 +230,7 @@ package server
 //@   locks-internally
 //@   frame-by-effects
 //@   requires scriptMsgOK(s, msg) && lock == 1 && !pending
-//@   modifies pending, ndispatched, lastDispatched, steps
+//@   modifies pending, ndispatched, lastDispatched, steps, perCall
 //@   ensures [lock-balance] lock == 1
 //@   ensures [read-only] !pending
 //@ func Server.luaTile38NonAtomic
@@ -238,7 +238,7 @@ package server
 //@   locks-internally
 //@   frame-by-effects
 //@   requires scriptMsgOK(s, msg) && lock == 0 && !pending
-//@   modifies lock, pending, ndispatched, lastDispatched, steps
+//@   modifies lock, pending, ndispatched, lastDispatched, steps, perCall
 //@   ensures [lock-balance] lock == 0
 //@   ensures [logged] !pending
 // Its effects are not attributed to whoever runs a Lua script (EVAL*, WHEREEVAL): it enforces its own gate.
@@ -250,7 +250,7 @@ package server
 //@   requires [mode-eval] evalcmd == "eval" || evalcmd == "evalsha" ==> lock == 2
 //@   requires [mode-evalro] evalcmd == "evalro" || evalcmd == "evalrosha" ==> lock == 1
 //@   requires [mode-evalna] evalcmd == "evalna" || evalcmd == "evalnasha" ==> lock == 0
-//@   modifies lock, pending, ndispatched, lastDispatched, steps
+//@   modifies lock, pending, ndispatched, lastDispatched, steps, perCall
 //@   ensures [lock-balance] lock == old(lock)
 //@   ensures [logged] !pending
 
@@ -264,7 +264,9 @@ package server
 //@ func lStatePool.Put
 //@   frame-by-effects
 //@   requires [clean-before-pooling] !perCall[L]
+// The script itself runs inside the interpreter (not analysable here): what it can do to the server goes through
+// luaTile38Call (above), which leaves the lock as it found it and logs every write it makes.
 //@ func Server.cmdEvalUnified
 //@   frame-by-effects
-//@   requires s != nil && s.luapool != nil && msg != nil && len(msg.Args) > 0 && (msg._command == "" || msg._command == lower(msg.Args[0]))
-//@   modifies perCall, pending, lock, ndispatched, lastDispatched, steps
+//@   requires s != nil && msg != nil && len(msg.Args) > 0 && (msg._command == "" || msg._command == lower(msg.Args[0]))
+//@   modifies perCall, ndispatched, lastDispatched, steps
